@@ -9,6 +9,7 @@ create_result().  Determinism: two optimisations with the same stub schedule giv
 from __future__ import annotations
 
 import copy
+import os
 import warnings
 
 import numpy as np
@@ -76,6 +77,12 @@ def _scheme_configs(tier):
     add("expression-chain-forward", mcs={"m1": {"labels": ["s1", "s2"], "pars": ["kfast", "kslow"]}},
         datasets=[{"label": "d1", "mc": ["m1"], "maxis": A3, "gaxis": G2, "scale": "sc1"}],
         expr_params={"kfast": "$kmid * 2", "kmid": "$ktop + $kslow", "ktop": "$kslow * 3"}, expr_first=True)
+    # a later linked dataset contributes two labels of its own: their column order must not depend on anything but the scheme
+    add("linked-second-dataset-two-new-labels", mcs={"m1": {"labels": ["s1", "s2"], "pars": ["k1", "k2"]}, "m2": {"labels": ["s1", "s4", "s3"]}},
+        datasets=[{"label": "d1", "mc": ["m1"], "maxis": A3, "gaxis": [1.0, 2.0]},
+                  {"label": "d2", "mc": ["m2"], "maxis": A3, "gaxis": [1.0, 2.0, 3.0], "scale": "sc2"}],
+        groups={"default": {"link_clp": True}},
+        penalties=[{"source": "s3", "source_intervals": [[1.0, 2.0]], "target": "s4", "target_intervals": [[1.0, 3.0]], "parameter": "pen1"}])
     add("gm-order-dataset-weight", mcs={"m1": {"labels": ["s1", "s2"], "pars": ["k1", "k2"]}},
         datasets=[{"label": "d1", "mc": ["m1"], "maxis": A3, "gaxis": G3, "weight": True, "order": "gm"}])
     add("gm-order-model-weight-linked", mcs={"m1": {"labels": ["s1", "s2"], "pars": ["k1", "k2"]}},
@@ -453,10 +460,49 @@ def concrete(cfg, env):
     return {"ok": True}
 
 
+def _fresh_process_check(cfg, seeds=(0, 1, 4, 7, 8, 9)):
+    """'whether or not the process is fresh': the same evaluations in new interpreter processes with different string hash seeds
+    (the order of a set of labels differs between them) must give the same penalty vectors."""
+    import json
+    import subprocess
+    import sys
+
+    code = ("import sys, json, warnings; warnings.simplefilter('ignore'); sys.path[:0] = ['/verif', '/repo']\n"
+            "from harness import c10_purity as m, c02_objective as c02\n"
+            "cfg = json.loads(sys.argv[1])\n"
+            "seq, single, changed = m._float_history(cfg, c02.salted('r1'))\n"
+            "print('RESULT ' + json.dumps([[float(x) for x in p] for _, p in seq]))\n")
+    outs = {}
+    for hs in seeds:
+        env = dict(os.environ, PYTHONHASHSEED=str(hs), PYTHONWARNINGS="ignore", NUMBA_DISABLE_PERFORMANCE_WARNINGS="1")
+        try:
+            r = subprocess.run([sys.executable, "-c", code, json.dumps(cfg)], capture_output=True, text=True, timeout=300, env=env)
+        except subprocess.TimeoutExpired:
+            return None, f"fresh process with hash seed {hs} timed out"
+        lines = [ln for ln in r.stdout.splitlines() if ln.startswith("RESULT ")]
+        if r.returncode != 0 or not lines:
+            return None, f"fresh process with hash seed {hs} failed: {r.stderr[-300:]}"
+        outs[hs] = json.loads(lines[-1][7:])
+    ref_seed = seeds[0]
+    for hs in seeds[1:]:
+        for i, (a, b) in enumerate(zip(outs[ref_seed], outs[hs])):
+            if len(a) != len(b) or not np.allclose(a, b, rtol=1e-7, atol=1e-10):
+                worst = int(np.argmax(np.abs(np.array(a) - np.array(b)))) if len(a) == len(b) else -1
+                return True, (f"config {cfg['name']}: evaluation {i} differs between fresh processes (PYTHONHASHSEED {ref_seed} vs {hs}): "
+                              f"entry {worst}: {a[worst] if worst >= 0 else len(a)!r} vs {b[worst] if worst >= 0 else len(b)!r}")
+    return False, "identical in fresh processes"
+
+
 def replay(data):
     cfg = data["cfg"]
     if cfg["kind"] == "race":
         return _race_replay(data)
+    if any(str(k).startswith("set_iteration_order") for k in (data.get("env") or {})):
+        # the counterexample depends on the iteration order of a set: that order is fixed within one process and differs between
+        # processes, so it is replayed across fresh interpreters
+        v, d = _fresh_process_check(dict(cfg, kind="history", fault=False))
+        if v:
+            return v, d
     for env in (c02.salted("r1"), c02.salted("r2")):
         if cfg["kind"] == "history":
             try:
